@@ -21,7 +21,7 @@ def tla_set(xs):
 
 def gen(module, constants, invariants, label, chk, timeout=1500, xmx="10g"):
     if module == "MC_LoadScript":
-        constants = dict({"CorruptBytes": "{}", "TypedTargets": "{}"}, **constants)
+        constants = dict({"CorruptBytes": "{}", "TypedTargets": "{}", "Arch": '"msgpack"'}, **constants)
     cfg = "SPECIFICATION Spec\nCONSTANTS\n" + "".join("  %s = %s\n" % kv for kv in constants.items()) + \
           "INVARIANTS " + " ".join(invariants) + "\n"
     r = vlib.tlc(module, cfg=write_cfg("%s_%s.cfg" % (module, label), cfg), timeout=timeout, xmx=xmx)
@@ -29,28 +29,44 @@ def gen(module, constants, invariants, label, chk, timeout=1500, xmx="10g"):
     return r.printed("GEN")
 
 
-def harness(chunk):
+def harness(chunk, arch="msgpack"):
+    if arch == "json":
+        return vlib.build("scn_json", ["scn_json.cpp"], groups=("common",))
     defs = [] if chunk == 256 else ["BITSERIALIZER_VERIF_CHUNK_SIZE=%d" % chunk]
     return vlib.build("scn_msgpack_c%d" % chunk, ["scn_msgpack.cpp"], groups=("msgpack", "common"), defines=defs)
 
 
-def replay(scens, media, chunk, tag):
-    """Executes scenarios (dicts with doc/root/pol) on the real MsgPack archive; returns list (scenario, observation)."""
-    rows = [{"id": "%s%d" % (tag, i), "media": media, "pol": s["pol"], "doc": s["doc"], "root": s["root"]}
-            for i, s in enumerate(scens)]
+def media_for(s, media, arch):
+    """Text archives: the in-memory entry point takes UTF-8 without BOM; other encodings only travel through streams."""
+    if arch == "msgpack":
+        return media
+    m = s.get("meta", {})
+    if m.get("enc", "utf8") == "utf8" and not m.get("bom"):
+        return media
+    return [x for x in media if x != "mem"]
+
+
+def replay(scens, media, chunk, tag, arch="msgpack"):
+    """Executes scenarios (dicts with doc/root/pol) on the real archive; returns list (scenario, observation)."""
+    rows = []
+    runmap = []
+    for i, s in enumerate(scens):
+        ms = media_for(s, media, arch)
+        rows.append({"id": "%s%d" % (tag, i), "media": ms, "pol": s["pol"], "doc": s["doc"], "root": s["root"]})
+        runmap += [(i, m) for m in ms]
     sp = os.path.join(vlib.scratch(), "scn_%s_%d.ndjson" % (tag, chunk))
     vlib.write_ndjson(sp, rows)
-    obs = vlib.run_resumable([harness(chunk), "load", sp], timeout=1800)
+    obs = vlib.run_resumable([harness(chunk, arch), "load", sp], timeout=1800)
     os.unlink(sp)
-    nm = len(media)
     out = []
     for o in obs:
-        s = scens[o["run"] // nm]
-        o["medium"] = media[o["run"] % nm]
+        i, m = runmap[o["run"]]
+        o["medium"] = m
         o["chunk"] = chunk
-        out.append((s, o))
-    if len(out) != len(scens) * nm:
-        raise vlib.MachineryError("replay %s: %d observations for %d runs" % (tag, len(out), len(scens) * nm))
+        o["arch"] = arch
+        out.append((scens[i], o))
+    if len(out) != len(runmap):
+        raise vlib.MachineryError("replay %s: %d observations for %d runs" % (tag, len(out), len(runmap)))
     return out
 
 
